@@ -14,18 +14,20 @@ import (
 )
 
 type CheckSpec struct {
-	ID          string
-	Level       string // evidence level category
-	Scenarios   func(c *CheckRun) []*Scenario
-	Bounds      []string
-	Outside     []string
-	Assumptions []string
-	Summaries   bool // substitute proven-equivalent scalar specs for the SWAR/SIMD primitives
-	GoArch      string
-	Post        func(c *CheckRun)             // optional extra obligations after the exploration
-	Alt386      func(c *CheckRun) []*Scenario // scenarios for a second load with GOARCH=386 (32-bit codec arms, portable node16)
-	Alt386Quick bool
-	Rule        string
+	ID            string
+	Level         string // evidence level category
+	Scenarios     func(c *CheckRun) []*Scenario
+	Bounds        []string
+	Outside       []string
+	Assumptions   []string
+	Summaries     bool // substitute proven-equivalent scalar specs for the SWAR/SIMD primitives
+	GoArch        string
+	Post          func(c *CheckRun)             // optional extra obligations after the exploration
+	Alt386        func(c *CheckRun) []*Scenario // scenarios for a second load with GOARCH=386 (32-bit codec arms, portable node16)
+	Alt386Quick   bool
+	ReplayGcflags string   // extra -gcflags for the native replay binary (C18: checkptr)
+	RaceTags      []string // assertion tags whose counterexamples are confirmed by running the two sides in goroutines under -race
+	Rule          string
 }
 
 type CheckRun struct {
@@ -123,6 +125,9 @@ func (c *CheckRun) runLeg(arch string, gen func(*CheckRun) []*Scenario, prefix s
 		}
 		scns = keep
 	}
+	if arch == "" && os.Getenv("VERIF_ONLY") == "" {
+		scns = append(scns, selfTestScenarios()...)
+	}
 	for i, s := range scns {
 		s.ID = i
 	}
@@ -195,6 +200,7 @@ func (c *CheckRun) runLeg(arch string, gen func(*CheckRun) []*Scenario, prefix s
 	// native replay: violations (up to 3 per group) and path samples
 	c.Rep = NewReplayer(spec.ID + arch)
 	c.Rep.goarch = arch
+	c.Rep.gcflags = spec.ReplayGcflags
 	var reqs []ReplayReq
 	type vref struct {
 		g *vioGroup
@@ -220,7 +226,9 @@ func (c *CheckRun) runLeg(arch string, gen func(*CheckRun) []*Scenario, prefix s
 		maxSamples = 400
 	}
 	nS := 0
-	for _, s := range scns {
+	ordered := append([]*Scenario(nil), scns...)
+	sort.SliceStable(ordered, func(i, j int) bool { return ordered[i].SelfTest && !ordered[j].SelfTest })
+	for _, s := range ordered {
 		for _, sm := range s.Samples {
 			if nS >= maxSamples {
 				break
@@ -276,6 +284,49 @@ func (c *CheckRun) runLeg(arch string, gen func(*CheckRun) []*Scenario, prefix s
 			}
 		} else if _, have := unconfirmed[vr.g.key]; !have {
 			unconfirmed[vr.g.key] = fmt.Sprintf("native outcome %s/%s %s", r.Outcome, r.Tag, r.Msg)
+		}
+	}
+	if len(spec.RaceTags) > 0 {
+		var raceRep *Replayer
+		rid := 0
+		for _, k := range order {
+			g := groups[k]
+			if _, ok := confirmed[k]; ok {
+				continue
+			}
+			isRace := false
+			for _, rt := range spec.RaceTags {
+				if g.first.Tag == rt {
+					isRace = true
+				}
+			}
+			if !isRace {
+				continue
+			}
+			if raceRep == nil {
+				raceRep = NewReplayer(spec.ID + arch + "-race")
+				raceRep.race = true
+				raceRep.goarch = arch
+			}
+			for i, v := range g.all {
+				if i >= 2 {
+					break
+				}
+				rr, err := raceRep.Run([]ReplayReq{{ID: rid, Harness: v.Scn.Harness, Params: v.Scn.Params, Tape: v.Tape}}, "VERIF_RACE=1")
+				if err != nil {
+					return fmt.Sprintf("race replay: %v", err)
+				}
+				r := rr[rid]
+				rid++
+				if r.Race {
+					r.Msg = "race detector: DATA RACE reported when the two sides run in goroutines"
+					r.Outcome = "race"
+					confirmed[k] = &r
+					confirmedV[k] = v
+					delete(unconfirmed, k)
+					break
+				}
+			}
 		}
 	}
 	os.MkdirAll(filepath.Join(outDir, "replays", spec.ID), 0o755)
@@ -445,6 +496,9 @@ func (c *CheckRun) writeEvidence(code int) {
 		cov["functions_encoded"] = c.Eng.encodedList()
 		cov["engine_load_s"] = c.Eng.loadTime.Seconds()
 		cov["goarch"] = c.Eng.goarch
+	}
+	if spec.Level == "other" {
+		cov["explanation"] = spec.Rule
 	}
 	if spec.Level == "proof" {
 		cov["obligations"] = int(asserts)
